@@ -261,6 +261,20 @@ impl Monitor {
         let pre_status = self.s.st.clone();
         let pre_tasks = self.s.tasks.clone();
         self.step_label = step_label(ev, obs);
+        if matches!(ev, Some(Ev::ToServer(_))) && pre.is_some() {
+            // the server-side state of the tasks the frame talks about is part of the mechanism
+            let mut states: Vec<String> = Vec::new();
+            for o in obs {
+                if let Obs::ToServer { tasks, .. } = o {
+                    for (t, _) in tasks {
+                        states.push(Self::core_state_label(pre, *t));
+                    }
+                }
+            }
+            if !states.is_empty() {
+                self.step_label = format!("{} tasks:{}", self.step_label, states.join("+"));
+            }
+        }
 
         // coverage matrix of Appendix B
         for o in obs {
